@@ -644,6 +644,17 @@ def round2_programs(dev):
         {"op": "aspirate", "lw": P, "wells": L([(1, 1)]), "vols": S(2), "label": "would underflow a poisoned well"},
         {"op": "transfer", "src": T, "sw": L([(0, 0)]), "dst": P, "dw": L([(0, 1)]), "vols": S(NAN), "label": "nan transfer", "wash": 1},
     ], wlmax=40, flags={"comp": False, "norm": False})
+    # empty argument lists: nothing is pipetted, nothing is refused, later operations are unaffected
+    prog("empty-lists", lw(), [
+        {"op": "add", "lw": P, "wells": L([(0, 1)]), "vols": S(2), "label": "before"},
+        {"op": "transfer", "src": T, "sw": L([]), "dst": P, "dw": L([]), "vols": L([]), "label": "nothing to do", "wash": 1},
+        {"op": "aspirate", "lw": P, "wells": L([]), "vols": L([]), "label": "no wells"},
+        {"op": "dispense", "lw": P, "wells": L([]), "vols": L([]), "label": None},
+        {"op": "add", "lw": P, "wells": L([]), "vols": L([]), "label": "no wells"},
+        {"op": "remove", "lw": T, "wells": L([]), "vols": L([]), "label": None},
+        {"op": "distribute", "src": T, "col": 0, "dst": P, "dw": L([]), "vol": 2, "label": "no destinations"},
+        {"op": "transfer", "src": T, "sw": L([(0, 0)]), "dst": P, "dw": L([(0, 1)]), "vols": S(3), "label": "after", "wash": 1},
+    ], flags={"comp": False, "norm": False, "fullhist": True})
     # the same two components, listed in the opposite order with exchanged fractions, meet in one well
     prog("composition-key-order", lw(), [
         {"op": "dispense", "lw": P, "wells": L([(0, 1), (1, 1)]), "vols": S(4), "label": "first", "comps": [{"acid": (1, 4), "base": (3, 4)}, {"base": (1, 4), "acid": (3, 4)}]},
